@@ -25,13 +25,13 @@ PROPS = {
  "C01": {
   "module": "Zog.Props.C01",
   "theorems": COMMON + [P + "C01." + t for t in ["success_means_valid_spec", "success_means_valid", "prim_no_issue_sat", "complex_tests_hold", "success_means_every_visit_clean", "visits_only_append", "engine_success_iff"]],
-  "streams": [eng(2500, 150000), eng(2000, 100000, "catch"), eng(2500, 100000, "nearsuccess")],
+  "streams": [eng(2500, 150000), eng(2000, 100000, "catch"), eng(2500, 100000, "nearsuccess"), eng(2000, 100000, "retype")],
   "trusted_base": ENGINE_TB, "assumptions": ENGINE_ASSUME,
  },
  "C02": {
   "module": "Zog.Props.C02",
   "theorems": COMMON + [P + "C02." + t for t in ["all_failing_tests_reported", "issue_code_and_path", "satisfied_no_issue", "missing_required_one_issue", "uncoercible_one_issue", "slice_uncoercible", "struct_uncoercible", "nil_iff_no_issue", "engine_reports_spec_issues"]],
-  "streams": [eng(3000, 150000), eng(2000, 100000, "catch")],
+  "streams": [eng(3000, 150000), eng(2000, 100000, "catch"), eng(1200, 60000, "deep")],
   "trusted_base": ENGINE_TB, "assumptions": ENGINE_ASSUME,
  },
  "C03": {
@@ -144,7 +144,7 @@ PROPS = {
  "C10": {
   "module": "Zog.Props.C10",
   "theorems": [P + "C10." + t for t in ["get_append", "inv_add", "issue_map_well_formed", "root_key", "nonroot_key", "render_is_joinSpec", "key_source_tag_first", "key_zog_tag_next", "key_schema_key_last", "key_validate", "issue_path_override", "sanitize_keys", "sanitize_list_length", "sanitize_get"]],
-  "streams": [st("path", 3000, 200000), eng(2500, 100000), st("front", 400, 10000)],
+  "streams": [st("path", 3000, 200000), eng(2500, 100000), eng(1200, 60000, "deep"), st("front", 400, 10000)],
   "trusted_base": ["modelled, not verified: lean/Zog/Path.lean mirrors internals/PathBuilder.go String and internals/Issues.go ErrsMap.Add; keyFor mirrors internals/DataProviders.go GetKeyFromField"] + ENGINE_TB,
   "assumptions": ["no issue is addressed to the reserved key `$first` (IssuePath(\"$first\") is outside the property)"] + ENGINE_ASSUME,
  },
@@ -167,7 +167,7 @@ PROPS = {
  "C19": {
   "module": "Zog.Props.C19",
   "theorems": COMMON + [P + "C19." + t for t in ["no_schema_writes", "validate_prim_frame", "second_run_same", "slice_default_is_copied"]],
-  "streams": [st("alias", 2500, 100000), eng(1500, 50000), eng(1500, 50000, "prepop"), eng(1500, 50000, "nested"), st("front", 400, 10000)],
+  "streams": [st("alias", 2500, 100000), eng(1500, 50000), eng(1500, 50000, "prepop"), eng(1500, 50000, "nested"), eng(1500, 50000, "retype"), st("front", 400, 10000)],
   "trusted_base": ENGINE_TB + ["Go memory aliasing is not expressible in the value model: destination/schema sharing is decided by the S-alias stream on the real code (second-run equality, input snapshots) and the go/ast fact schemaWrites = []"],
   "assumptions": ENGINE_ASSUME,
  },
